@@ -44,10 +44,11 @@ def run_tie(functions, n, seed_, ulps=None, corpus=None):
             toks = []
             for k, v in zip(kinds, args):
                 toks += gens.encode_arg(k, v)
+            args = list(args)
             lines.append(fn + ' ' + ' '.join(toks))
             try:
                 r = impl(*args)
-                w = wire_value(r)
+                w = gens.wire_value(r) if hasattr(gens, 'wire_value') else wire_value(r)
                 if sigs[fn]['raising']:
                     w = 'OK ' + w
                 stats.add('ok')
@@ -64,7 +65,7 @@ def run_tie(functions, n, seed_, ulps=None, corpus=None):
                 # the Float model has no exceptions inside expressions; not compared, counted.
                 stats.add('not-compared-implicit')
                 continue
-            d = compare_wire(a, b, ulps.get(fn, 0))
+            d = compare_grouped(a, b, gens.TIE_TOL[fn]) if fn in getattr(gens, 'TIE_TOL', {}) else compare_wire(a, b, ulps.get(fn, 0))
             if d is not None:
                 dis.append({'function': fn, 'args': [gens.describe_arg(x) for x in args], 'impl': a, 'model': b,
                             'diff': d, 'request': line})
